@@ -174,7 +174,9 @@ namespace sim
 	void simulation::rebind_socket(ip::tcp::socket* prev, ip::tcp::socket* s, ip::tcp::endpoint ep)
 	{
 		auto i = m_listen_sockets.find(ep);
-		assert(i != m_listen_sockets.end());
+		// an accepted socket shares its acceptor's endpoint without owning the
+		// binding. By the time it is moved the acceptor may have been closed
+		if (i == m_listen_sockets.end()) return;
 		if (i->second != prev) return;
 		i->second = s;
 	}
